@@ -127,6 +127,21 @@ def worker(pid, tier, seed, shard, nshards, outdir):
     from hypothesis import given, Phase
 
     t0 = time.time()
+    covdir = os.environ.get("VF_LINECOV_DIR")
+    cov_lines = set()
+    if covdir:
+        # diagnostic only (tools/line_coverage.py): which lines of the library do the generated cases reach?
+        mon = sys.monitoring
+        root = os.path.realpath(os.environ.get("VERIF_REPO", "/repo")) + os.sep
+        mon.use_tool_id(mon.COVERAGE_ID, "vf-linecov")
+
+        def _line(code, line):
+            if code.co_filename.startswith(root):
+                cov_lines.add((code.co_filename[len(root):], line))
+            return mon.DISABLE
+
+        mon.register_callback(mon.COVERAGE_ID, mon.events.LINE, _line)
+        mon.set_events(mon.COVERAGE_ID, mon.events.LINE)
     lab = core.get_lab(pid)
     core.check_repo_import()
     lab.known_open = set(load_known(pid))
@@ -242,6 +257,10 @@ def worker(pid, tier, seed, shard, nshards, outdir):
         "wall_s": time.time() - t0,
         "extra": lab.extra_evidence(),
     }
+    if covdir:
+        os.makedirs(covdir, exist_ok=True)
+        with open(os.path.join(covdir, f"{pid}-{shard}.json"), "w") as f:
+            json.dump(sorted(cov_lines), f)
     tmp = os.path.join(outdir, f"part{shard}.json.tmp")
     with open(tmp, "w") as f:
         json.dump(out, f)
